@@ -13,12 +13,20 @@
           check still replays.
 
   The theorems quantify over every pipeline of the modelled stages (all the writing ones
-  included: `$lookup`, `$addFields/$set` on dotted paths, `$sample`, `$facet`, nested), every
-  state and every value-level semantics `Sem`.  The one hypothesis on states, `State.persistent`,
-  is the name-space convention of the model: what persists between calls holds no run-local
-  identity.  The proof carries the invariant `WInv` ("what the call works on was allocated by the
-  call, in a window of identities nothing persistent lives in") through every stage and every
-  `$facet` branch (Proofs/C16Inv.lean).
+  included: `$lookup`, `$addFields/$set` on dotted paths, `$unwind` with `includeArrayIndex`,
+  `$sample`, `$facet`, nested), every state and every value-level semantics `Sem`.  The one
+  hypothesis on states, `State.persistent`, is the name-space convention of the model: what
+  persists between calls holds no run-local identity.  The proof carries the invariant `WInv`
+  ("what the call works on was allocated by the call, in a window of identities nothing
+  persistent lives in") through every stage and every `$facet` branch (Proofs/C16Inv.lean).
+
+  Since the repair of `$addFields` (every level of a dotted name is copied before it is written)
+  the stages of the class `Stage.pure` — everything but `$lookup`, `$out`, `$facet` — contain no
+  in-place write at all: `pure_stage_writes_nothing` / `stage_input_unchanged` hold in EVERY
+  world, with no invariant and no hypothesis on the state, and `$facet` isolation of such
+  sub-pipelines no longer depends on the per-branch copy (`facet_isolated_by_stage_discipline`,
+  stated under `Disc.sharing`); the copy remains necessary because of `$lookup`
+  (`sharing_witnesses`).
 -/
 import Proofs.C16Top
 import Generated.AggDiscipline
@@ -282,6 +290,81 @@ def branchY (D : Disc) (pipe : HV) : Option Val :=
 theorem facet_witnesses_isolated :
     ∀ pipe ∈ [pipeFacetAdd, pipeFacetLookup],
       (branchY Disc.reference pipe).map (· == .arr [doc0.toVal]) = some true := by
+  decide +kernel
+
+/-! ### stages that write into nothing that was there before -/
+
+/-- **no in-place write**: a stage other than `$lookup`, `$out`, `$facet` — `$addFields/$set` on
+    dotted names and `$unwind` with an index included — leaves everything the world keeps alive
+    literally unchanged: collections, catalog, the caller's pipeline object and every list on the
+    stack.  In ANY world: no invariant, no hypothesis on who shares objects with the documents. -/
+theorem pure_stage_writes_nothing (sem : Sem) (st : Stage) (w w' : World) (hp : st.pure = true)
+    (hs : runStage Disc.reference sem w st = .ok w') :
+    w'.colls = w.colls ∧ w'.idx = w.idx ∧ w'.pipe = w.pipe ∧ w'.stack = w.stack ∧
+      w'.nextSt = w.nextSt := by
+  have h := (runStage_pure_same Disc.reference rfl rfl sem st w w' hp hs).1
+  exact ⟨h.colls, h.idx, h.pipe, h.stack, h.nextSt⟩
+
+/-- **the documents a stage is handed are left alone**: keep the input list of a run of
+    non-writing stages alive (on the stack, as `$facet` does for its sub-pipelines) — afterwards
+    it is the same list of the same objects with the same contents -/
+theorem stage_input_unchanged (sem : Sem) (ss : List Stage) (w w' : World) (stk : List (List HV))
+    (hp : pureStages ss = true)
+    (hs : runStages Disc.reference sem { w with stack := w.work :: stk } ss = .ok w') :
+    w'.stack = w.work :: stk :=
+  (runStages_pure_same Disc.reference rfl rfl sem ss _ w' hp hs).1.stack
+
+/-- `{'$addFields': {'a.z': 9}}`;
+    `{'$unwind': {path: '$arr', preserveNullAndEmptyArrays: true, includeArrayIndex: 'a.ix'}}`
+    (the witness document has no `arr`: it is kept, and a copy of it gets `a.ix: null`) -/
+def addZ : Stage := .addFields [("a.z", .const (.int 9))]
+def unwindIx : Stage := .unwind "arr" true (some ["a", "ix"])
+
+/-- the stage's input (kept on the stack) after the stage, as values -/
+def inputAfter (D : Disc) (st : Stage) : Option (List Val) :=
+  let w := (mkState (.node (.cl 0) false [])).world D "a"
+  match runStage D Sem.trivial { w with stack := [w.work] } st with
+  | .ok w' => w'.stack.head?.map toVals
+  | .error _ => none
+
+/-- both witnesses are in the class, run, and leave their input as it was … -/
+example : addZ.pure = true ∧ unwindIx.pure = true ∧ pureStages [addZ, unwindIx] = true ∧
+    (inputAfter Disc.reference addZ).map (· == [doc0.toVal]) = some true ∧
+    (inputAfter Disc.reference unwindIx).map (· == [doc0.toVal]) = some true := by decide +kernel
+
+/-- … whereas the discipline `$addFields` had before (descend into the sub-document that is
+    there) wrote `a.z` into the stage's input -/
+theorem unrepaired_addfields_writes_input :
+    (inputAfter { Disc.reference with addFieldsNested := .none } addZ).map (· == [doc0.toVal])
+      = some false := by
+  decide +kernel
+
+/-- **`$facet` isolation by the stages' own discipline**: when every sub-pipeline consists of
+    non-writing stages, each output is what the sub-pipeline returns when run alone on the
+    stage's input ITSELF (`BranchShared`: the very objects, no copy) — under the discipline
+    `Disc.sharing` that hands ONE list to all sub-pipelines — and the stage has written into
+    nothing.  The per-branch copy of `Disc.reference` is what `$lookup` needs (below). -/
+theorem facet_isolated_by_stage_discipline (sem : Sem) (w w' : World)
+    (bs : List (String × List Stage)) (ho : w.out = []) (hp : pureBranches bs = true)
+    (hs : runStage Disc.sharing sem w (.facet bs) = .ok w') :
+    (w'.colls = w.colls ∧ w'.pipe = w.pipe ∧ w'.stack = w.stack) ∧
+    ∃ (n : Nat) (outs : List (List HV)), w'.work = [facetDoc n (bs.map (·.1)) outs] ∧
+      All2 (BranchShared Disc.sharing sem w w.work) bs outs := by
+  have h := facet_shared_isolated_stage Disc.sharing rfl rfl rfl sem w w' bs ho hp hs
+  exact ⟨⟨h.1.colls, h.1.pipe, h.1.stack⟩, h.2⟩
+
+/-- the `$addFields` witness is such a `$facet`, and it runs under `Disc.sharing` -/
+example : (∃ bs, parsePipe pipeFacetAdd = [.facet bs] ∧ pureBranches bs = true) ∧
+    (observe Disc.sharing Sem.trivial (mkState pipeFacetAdd) "a").isSome = true :=
+  ⟨⟨_, rfl, by decide⟩, by decide +kernel⟩
+
+/-- without the per-branch copy: `$addFields` on a dotted name in branch `x` is not seen by
+    branch `y` any more, `$lookup` still is — and the former `$addFields` was -/
+theorem sharing_witnesses :
+    (branchY Disc.sharing pipeFacetAdd).map (· == .arr [doc0.toVal]) = some true ∧
+    (branchY Disc.sharing pipeFacetLookup).map (· == .arr [doc0.toVal]) = some false ∧
+    (branchY { Disc.sharing with addFieldsNested := .none } pipeFacetAdd).map
+      (· == .arr [doc0.toVal]) = some false := by
   decide +kernel
 
 /-! ### the laws fail under the discipline /repo had before the repairs -/
